@@ -12,8 +12,18 @@
 use serde_json::{json, Value};
 use std::os::unix::ffi::OsStringExt;
 
-/// bump when the dump format changes (a stale sibling `spawn-helper` is then rejected)
-pub const PROTO: u64 = 3;
+/// identifies the helper's source text: a `spawn-helper` built from other sources than the harness is rejected
+pub const PROTO: u64 = fnv(include_bytes!("helper.rs"));
+
+const fn fnv(b: &[u8]) -> u64 {
+    let mut h: u64 = 0xcbf29ce484222325;
+    let mut i = 0;
+    while i < b.len() {
+        h = (h ^ b[i] as u64).wrapping_mul(0x100000001b3);
+        i += 1;
+    }
+    h >> 12 // stays exact as a JSON number
+}
 pub const REPORT_FD: i32 = 9;
 pub const OUT_TOKEN: &[u8] = b"spawn-helper:stdout\n";
 pub const ERR_TOKEN: &[u8] = b"spawn-helper:stderr\n";
